@@ -162,6 +162,23 @@ func (s *segmentMetadata) getIndex(vecIdx VectorIndex, txtIdx TextIndex, metaIdx
 		return nil, fmt.Errorf("index does not implement io.ReaderFrom")
 	}
 
+	// The index must be the whole content of the component files. Reading on to the
+	// end also makes gzip verify the checksum trailer of the last file: a segment whose
+	// last component was cut short (even inside the trailer) is damaged, not complete
+	var extra [1]byte
+	for {
+		n, err := combinedReader.Read(extra[:])
+		if n != 0 {
+			return nil, fmt.Errorf("failed to deserialize segment: unexpected data after the index")
+		}
+		if err == io.EOF {
+			break
+		}
+		if err != nil {
+			return nil, fmt.Errorf("failed to deserialize segment: %w", err)
+		}
+	}
+
 	// Cache the loaded index
 	s.cachedIndex = idx
 	verifPoint("segment.load.done", s.id, idx)
